@@ -4,9 +4,9 @@ import os
 
 PROP = {
     "bin": "c19",
-    "coq_targets": ["theories/Elf/C19Check", "theories/Elf/ElfProofs", "theories/Elf/ElfLink", "theories/Elf/ElfMips"],
-    "n": {"quick": int(os.environ.get("C19_N", "320")), "thorough": 6000},
-    "theorems": ["memory_image", "arch_of_header", "rebase_uniform_memory", "rebase_uniform_sections", "rebase_uniform_entries", "rebase_uniform_symbols", "rebase_uniform_program_entry", "entries_are", "reloc_once_partial", "reloc_once", "reloc_once_relative", "reloc_once_link", "reloc_once_mips"],
+    "coq_targets": ["theories/Elf/C19Check", "theories/Elf/ElfProofs", "theories/Elf/ElfLink", "theories/Elf/ElfMips", "theories/Elf/ElfLinkN", "theories/Elf/ElfMipsFull"],
+    "n": {"quick": int(os.environ.get("C19_N", "240")), "thorough": 6000},
+    "theorems": ["memory_image", "arch_of_header", "rebase_uniform_memory", "rebase_uniform_sections", "rebase_uniform_entries", "rebase_uniform_symbols", "rebase_uniform_program_entry", "entries_are", "reloc_once_partial", "reloc_once", "reloc_once_relative", "reloc_once_link", "reloc_once_mips", "reloc_once_linkn", "link_symbol_first", "link_exports_once", "interp_image", "reloc_once_linkn_relative", "reloc_once_mips_full"],
     "rule": "one xoshiro256** stream per (seed,index): 80% single objects (ELF32/64, LE/BE, EM_386/X86_64/MIPS/PPC/AARCH64 plus refused PPC-LE and "
             "unsupported machines; 1-5 program headers with filesz <= memsz, random flags incl. OS bits, odd alignments, occasional overlap; .symtab and, in 60%, "
             "a dynamic segment with .dynsym/.hash/PLT relocations; 0-2 user entries) loaded at base 0 and at a base from {0, 0x1000, 0x40000000, random}; "
@@ -15,10 +15,11 @@ PROP = {
             "non-trivial = loaded with base != 0, or linked; distinct by the whole case text",
     "trusted_base": [KERNEL, HARNESS_TB, "goblin 0.6.0 (ELF parser: the model's inputs are what goblin parsed from the generated file)"],
     "assumptions": ["goblin parses the generated files as written", "u64 additions are overflow-checked (harness build profile)"],
-    "partial": ["reloc_once: x86 pass proved at memory level incl. R_386_RELATIVE (reloc_once, reloc_once_relative) and for the whole two-object link from "
-                "description-level hypotheses (reloc_once_link: symbolic kinds, library without relocations of its own); MIPS pass proved for external global GOT entries "
-                "(reloc_once_mips); MIPS local GOT entries and R_MIPS_REL32 words, a library with its own relocations at description level: modelled and tied, no theorem; "
-                "several DT_NEEDED libraries and just_interpreter: modelled and tied, no theorem beyond linkn_one; nested DT_NEEDED, dynrelas, program_verbose/program_recursive_verbose: not modelled"],
+    "partial": ["reloc_once: x86 proved at memory level (reloc_once, reloc_once_relative) and from description-level hypotheses for one library, k libraries, "
+                "just_interpreter and R_386_RELATIVE in main (reloc_once_link, reloc_once_linkn, interp_image, reloc_once_linkn_relative; libraries without relocations of their own); "
+                "MIPS proved at memory level, conditional on the pass returning Ok (reloc_once_mips, reloc_once_mips_full: local/defined/external GOT entries, R_MIPS_REL32 incl. named symbols); "
+                "open: a description-level MIPS link theorem, libraries with their own relocations (incl. R_386_RELATIVE in a library) at description level; "
+                "nested DT_NEEDED, dynrelas, program_verbose/program_recursive_verbose: not modelled"],
     "level_text": "Unbounded Coq theorems that the Gallina transcription of loader::Elf (after goblin) maps exactly the image (file bytes, zero fill, translated R/W/X, nothing else), "
                   "selects the architecture named in the header, reports exactly the defined function symbols + entry + user entries, and rebases memory, entries, symbols and the "
                   "program entry uniformly; plus an in-kernel differential tie of that transcription (and of the x86 linker path) to the Rust code on generated ELF files.",
